@@ -375,7 +375,7 @@ func getEngine() *engine {
 	imports.Packages["verif/c02vars"] = vars
 	decls := preludeDecls()
 	tSetup := time.Now()
-	defer func() { fmt.Fprintf(os.Stderr, "c02 engine setup: %v\n", time.Since(tSetup)) }()
+	defer func() { rec.Extra("engine_setup_s", time.Since(tSetup).Seconds()) }()
 
 	e.main = e.newInterp()
 	e.mustEval(e.main, `import vars "verif/c02vars"`)
@@ -383,7 +383,6 @@ func getEngine() *engine {
 		e.mustEval(e.main, d)
 	}
 
-	fmt.Fprintf(os.Stderr, "c02 main interp: %v\n", time.Since(tSetup))
 	e.full = e.newInterp()
 	for _, d := range decls {
 		e.mustEval(e.full, d)
@@ -452,12 +451,6 @@ func (e *engine) newInterp() *fast.Interp {
 }
 
 func (e *engine) mustEval(ir *fast.Interp, src string) {
-	t0 := time.Now()
-	defer func() {
-		if d := time.Since(t0); d > 50*time.Millisecond {
-			fmt.Fprintf(os.Stderr, "slow eval %v: %.60s\n", d, src)
-		}
-	}()
 	if p := vlib.Try(func() { ir.Eval(src) }); p != nil {
 		panic(fmt.Sprintf("harness setup: %s: %v", src, p))
 	}
@@ -817,12 +810,12 @@ func (sw *sweeper) runCell(c *cell) {
 	r := newRng(sw.seed, c.key())
 	k, rk := c.t.k, c.rt.k
 	thorough := rec.Thorough()
-	as := pick(append(append([]val(nil), sw.specials(k)...), sw.boundary(k)...), len(sw.specials(k)), rec.Scale(6, 40), r)
+	as := pick(append(append([]val(nil), sw.specials(k)...), sw.boundary(k)...), len(sw.specials(k)), rec.Scale(4, 40), r)
 	for i := 0; i < rec.Scale(2, 8); i++ {
 		as = append(as, k.Random(r))
 	}
-	if len(as) > rec.Scale(26, 90) {
-		as = pick(as, 6, rec.Scale(20, 84), r)
+	if len(as) > rec.Scale(14, 90) {
+		as = pick(as, 6, rec.Scale(8, 84), r)
 	}
 	var ys []val
 	switch {
@@ -831,10 +824,10 @@ func (sw *sweeper) runCell(c *cell) {
 	case c.op.cls == "shift":
 		ys = shiftCounts(rk, k.Bits())
 		if !thorough {
-			ys = pick(ys, 0, 8, r)
+			ys = pick(ys, 0, 7, r)
 		}
 	default:
-		ys = pick(append(append([]val(nil), sw.specials(rk)...), sw.boundary(rk)...), 5, rec.Scale(4, 14), r)
+		ys = pick(append(append([]val(nil), sw.specials(rk)...), sw.boundary(rk)...), 3, rec.Scale(3, 14), r)
 		ys = append(ys, rk.Random(r))
 	}
 	if c.sh.zero || c.sh.blank {
@@ -948,7 +941,7 @@ func (sw *sweeper) cellsOf(sh *shape, t ctype, unit int) []*cell {
 						// 0 1 2 3 7 10 min min+1 max max-1 ... (-1 -2 ..): keep 0, 1, 2, max/-1
 						consts = append([]val{consts[0], consts[1], consts[2], minusOneOrMax(rt.k)}, consts[3:]...)
 					}
-					consts = pick(consts, keep, 3, r)
+					consts = pick(consts, keep, 2, r)
 				} else if len(consts) > 48 {
 					consts = append([]val{consts[0], consts[1], consts[2], minusOneOrMax(rt.k)}, consts[3:]...)
 					consts = pick(consts, 4, 44, r)
